@@ -9,6 +9,10 @@ private helper (helpers are interpreted, the other anchors are recorded as opaqu
   `calculate_target_power` call returning {a new target, None = unchanged}.  Every abstract path
   is checked for C11.SUM (returned power == sum of both groups' *current* targets) and C11.SHIFT
   (the second-computed group gets the system bounds shifted by the *current* target of the first).
+* Matryoshka.calculate_target_power (the resolver contract that model relies on) over bucket
+  absent/empty/non-empty x stored target x proposal x validation x fresh == stored x
+  must_return_power: None only if the group has no bucket or the target was recomputed from (its
+  bucket, the bounds argument) and equals the stored one; a returned target is fresh and stored.
 * _calculate_shifted_bounds over shift None/present x inclusion/exclusion bounds None/present: both
   inclusion bounds minus the same power (linear terms), exclusion bounds passed through.
 * C11.REQ: who may build a Request / use the requests sender (only _send_updated_target_power and
@@ -27,8 +31,8 @@ from ..engine.normalize import ANCHOR_NAMES
 from ..engine.report import AnalysisError, Run
 from ..engine.resolver import ClassInfo, FuncInfo, Program
 from ..engine.util import u
-from ._c11_util import (REQ_SENDER_ATTR, ActorInterp, Flag, Sym, is_shift, lin_of,
-                        structural_controls)
+from ._c11_util import (MATRYOSHKA, REQ_SENDER_ATTR, ActorInterp, Flag, ResolverInterp, Sym, is_shift,
+                        lin_of, structural_controls)
 
 ACTOR = "microgrid._power_managing._power_managing_actor:PowerManagingActor"
 MODULE = "microgrid._power_managing._power_managing_actor"
@@ -221,6 +225,82 @@ def check_shift_fn(run: Run, prog: Program) -> None:
               "exclusion bounds", node=fn.node, file=fn.file)
 
 
+def check_resolver(run: Run, prog: Program) -> None:
+    """The contract the SUM rule's model of a group relies on, decided on the resolver itself:
+    `calculate_target_power` answers None (= "unchanged, get_target_power is still truthful") only
+    if the group has no bucket at all, or it recomputed the target from (this group's bucket, the
+    bounds argument) and found it equal to the stored one; a non-None answer is that fresh target
+    and is what get_target_power returns afterwards."""
+    cls = prog.cls(MATRYOSHKA)
+    fn = prog.func(f"{MATRYOSHKA}.calculate_target_power")
+    run.analysed(fn.qual)
+    interp = ResolverInterp(prog, cls)
+
+    def make_args() -> dict[str, Any]:
+        interp.ids = Sym("ids")
+        interp.bucket = ("absent", "empty", "nonempty")[interp.choose(3, "bucket absent/empty/non-empty")]
+        if interp.choose(2, "a target is stored") == 1:
+            interp.stored = Sym("stored_target")
+        proposal = Obj("Proposal") if interp.choose(2, "a proposal is given") == 1 else None
+        bounds = Sym("system_bounds")
+        interp.inputs = {"bucket": interp.bucket, "stored": interp.stored, "proposal": proposal,
+                         "bounds": bounds}
+        return interp.bind_args(fn.node, [interp.ids, proposal, bounds, Flag("must_return_power")], {},
+                                self_value=Obj("self"))
+
+    outs = interp.explore(fn.node, make_args)
+    if len(outs) < 12:
+        raise AnalysisError(f"{fn.qual}: only {len(outs)} abstract paths explored")
+    n_none = n_new = 0
+    for out in outs:
+        desc = _desc(out)
+        st = out.state
+        if out.kind != "return":
+            continue  # NotImplementedError / KeyError paths send nothing (C03 decides validation)
+        inp = st["inputs"]
+        calcs = [e for e in st["events"] if e["kind"] == "calc"]
+        fresh_ok = len(calcs) == 1 and len(calcs[0]["args"]) == 2 and \
+            calcs[0]["args"][0] is interp_bucket(out) and calcs[0]["args"][1] is inp["bounds"]
+        ret = out.value
+        node = st["ret_node"] if st["ret_node"] is not None else fn.node
+        if st["valid"] is False:
+            ok = ret is None and st["stored"] is inp["stored"]
+            run.check(ok, "C11.SUM", fn.qual, node, "a failed validation changes or reports a target",
+                      node=node, file=fn.file, instance=f"resolver: validation failed -> nothing: {desc}")
+            continue
+        if ret is None:
+            n_none += 1
+            equal = bool(calcs) and st["stored"] is inp["stored"] and inp["stored"] is not None and \
+                st["facts"].get(("eq", frozenset((inp["stored"].name, calcs[0]["result"].name)))) is True
+            ok = st["bucket"] == "absent" or (fresh_ok and equal)
+            test = st["last_test"]
+            run.check(ok, "C11.SUM", fn.qual, test if test is not None and not ok else "None only when unchanged",
+                      "the resolver answers None (= unchanged) although the group has a bucket "
+                      f"({st['bucket']}) and the target was not recomputed and found equal to the stored "
+                      "one: after all proposals expired the stale stored target keeps being reported by "
+                      "get_target_power and added to the request (sum can leave the system bounds). "
+                      f"Path: {desc}", node=test if test is not None else node, file=fn.file,
+                      instance=f"resolver: None only if no bucket or recomputed-and-equal: {desc}")
+        else:
+            n_new += 1
+            ok = fresh_ok and ret is calcs[0]["result"] and st["stored"] is ret
+            run.check(ok, "C11.SUM", fn.qual, node,
+                      f"the resolver returns `{ret}` but get_target_power would afterwards report "
+                      f"`{st['stored']}` (or the value is not the target freshly computed from this "
+                      f"group's bucket and the given bounds). Path: {desc}", node=node, file=fn.file,
+                      instance=f"resolver: returned target is fresh and stored: {desc}")
+    if n_none < 3 or n_new < 3:
+        raise AnalysisError(f"{fn.qual}: too few None/new-target paths explored ({n_none}/{n_new})")
+
+
+def interp_bucket(out: Any) -> Any:
+    """The bucket object of the run (the value handed to _calc_target_power must be it)."""
+    for e in out.state["events"]:
+        if e["kind"] == "calc" and e["args"] and isinstance(e["args"][0], Obj) and e["args"][0].cls == "Bucket":
+            return e["args"][0]
+    return None
+
+
 # =============================================================================== C11.REQ
 def _owner_refs(prog: Program, names: set[str]) -> dict[str, set[tuple[str, str]]]:
     """For each attribute/function name: the (class qual | module, top-level function) units that
@@ -400,12 +480,19 @@ def check_bounds_tracker(run: Run, prog: Program, cls: ClassInfo) -> None:
                           f"the tracker does not process every bounds message ({out.kind} {out.value}; {desc})",
                           node=bt.node, file=bt.file)
             continue
-        for seg in segs:
+        for i, seg in enumerate(segs):
             msg = seg[0]["value"]
             ups = [e for e in seg if e["kind"] == "_send_updated_target_power"]
             reps = [e for e in seg if e["kind"] == "_send_reports"]
+            forks = [e for e in seg if e["kind"] == "fork"]
+            end_cache = segs[i + 1][0].get("cache", {}) if i + 1 < len(segs) else out.state["cache"]
             why = ""
-            if not ups:
+            if end_cache.get(ids) is not msg and not any(e["cache"].get(ids) is msg for e in ups + reps):
+                kept = f"`{end_cache[ids]!r}`" if ids in end_cache else "the previous bounds"
+                why = (f"a received bounds message is dropped: the cache keeps {kept}, so later requests are clamped "
+                       "to bounds that are not the latest the manager received"
+                       + (f" (decided by {forks[-1]['label']} -> {forks[-1]['outcome']})" if forks else ""))
+            elif not ups:
                 why = "the target power is not recomputed after a bounds message"
             elif not reps:
                 why = "no reports are sent after a bounds message"
@@ -418,9 +505,11 @@ def check_bounds_tracker(run: Run, prog: Program, cls: ClassInfo) -> None:
                 why = "reports are sent before the new system bounds are stored"
             elif seg.index(reps[-1]) < seg.index(ups[-1]):
                 why = "the reports are sent before the target power is recomputed"
-            bad = next((e for e in ups + reps if why and "node" in e), None)
-            run.check(not why, "C11.REQ", bt.qual, construct, f"{why} ({desc})",
-                      node=bad["node"] if bad else bt.node, file=bt.file,
+            bad = next((e for e in (forks[::-1] if "dropped" in why or not ups or not reps else []) + ups + reps
+                        if why and e.get("node") is not None), None)
+            run.check(not why, "C11.REQ", bt.qual,
+                      bad["node"] if bad is not None and bad["kind"] == "fork" else construct,
+                      f"{why} ({desc})", node=bad["node"] if bad else bt.node, file=bt.file,
                       instance=f"message {msg!r}: stored before recomputation before reports: {desc}")
 
 
@@ -437,7 +526,10 @@ def check_reports(run: Run, prog: Program, cls: ClassInfo) -> None:
         for g in ("op", "reg"):
             if interp.choose(2, f"stored {g} target exists") == 1:
                 interp.stored[g] = Sym(f"T_{g}")
-        interp.inputs = {"ids": interp.ids}
+        # the environment is decided up front so that every path knows it (a path that returns
+        # early never asks): bounds cached?  subscribers of either kind?
+        env = interp.environment(interp.ids)
+        interp.inputs = {"ids": interp.ids, **env}
         return interp.bind_args(sr.node, [interp.ids], {}, self_value=interp.self_obj())
 
     outs = interp.explore(sr.node, make_args)
@@ -469,18 +561,29 @@ def check_reports(run: Run, prog: Program, cls: ClassInfo) -> None:
                        "their target is computed in")
             run.check(ok, "C11.REQ", sr.qual, construct, f"{why} ({desc})", node=e["node"],
                       file=sr.file, instance=f"{e['group']} status bounds: {desc}")
-        # subscribers present and bounds cached -> a status is produced for them
-        labels = dict(zip(out.labels, out.decisions))
-        if labels.get("no system bounds cached yet") == 0:
+        # subscribers present and bounds cached -> a status is produced for them, whatever the
+        # cached bounds contain (the resolvers handle missing inclusion bounds themselves)
+        inp = out.state["inputs"]
+        if inp["cached"]:
+            forks = [e for e in out.state["events"] if e["kind"] == "fork"]
             for g in ("op", "reg"):
-                if labels.get(f"no {g} subscribers") == 0:
-                    n = sum(1 for e in out.state["events"] if e["kind"] == "status" and e["group"] == g)
-                    m = sum(1 for e in out.state["events"] if e["kind"] == "report"
-                            and isinstance(e["value"], Obj) and e["value"].cls == "Report"
-                            and e["value"].fields["group"] == g)
-                    run.check(n >= 1 and m >= 1, "C11.REQ", sr.qual, f"{g} subscribers get a status",
-                              f"{g} subscribers exist and bounds are cached but no status is sent ({desc})",
-                              node=sr.node, file=sr.file, instance=f"{g} subscribers get a status: {desc}")
+                if not inp[g]:
+                    continue
+                n = sum(1 for e in out.state["events"] if e["kind"] == "status" and e["group"] == g)
+                m = sum(1 for e in out.state["events"] if e["kind"] == "report"
+                        and isinstance(e["value"], Obj) and e["value"].cls == "Report"
+                        and e["value"].fields["group"] == g)
+                last = forks[-1] if forks else None
+                run.check(n >= 1 and m >= 1, "C11.REQ", sr.qual,
+                          last["node"] if last is not None and last["node"] is not None
+                          else f"{g} subscribers get a status",
+                          f"{'operating-point' if g == 'op' else 'regular'} subscribers exist and system "
+                          "bounds are cached, but no status is sent to them"
+                          + (f" after {last['label']} -> {last['outcome']}" if last else "")
+                          + ": the targets they were last told stay in force in their eyes while the "
+                          f"request is recomputed ({desc})",
+                          node=last["node"] if last is not None and last["node"] is not None else sr.node,
+                          file=sr.file, instance=f"{g} subscribers get a status: {desc}")
     if not seen["op"] or not seen["reg"]:
         raise AnalysisError(f"{sr.qual}: get_status of both groups not reached ({seen})")
 
@@ -498,11 +601,15 @@ CONTROLS = [
     ("regular reports not shifted", "microgrid._power_managing._power_managing_actor",
      "                self._calculate_shifted_bounds(\n                    bounds,\n                    self._set_op_power_group.get_target_power(component_ids),\n                ),",
      "                bounds,", "C11.REQ"),
+    ("resolver skips an emptied bucket", "microgrid._power_managing._matryoshka",
+     "        if proposals is None:\n            return None\n", "        if not proposals:\n            return None\n",
+     "C11.SUM"),
 ]
 
 
 def run_rules(run: Run, prog: Program) -> None:
     check_calc(run, prog)
+    check_resolver(run, prog)
     check_shift_fn(run, prog)
     check_req(run, prog)
 
@@ -523,9 +630,10 @@ def check(run: Run, prog: Program, tier: str) -> str:
 
     # the controls are located by structure in the analysed tree (textual patches as fallback)
     run_controls(run, structural_controls(prog, ACTOR, MODULE, CONTROLS), run_rules, tier)
-    run.assume("Matryoshka.calculate_target_power returns None only for 'unchanged' or 'no proposals "
-               "/ no bounds' and otherwise stores and returns the new target (read from "
-               "_matryoshka.py; re-checked structurally under C03.PURE)")
+    run.assume("the model of a group used by the SUM rule (None = unchanged, otherwise the new target is "
+               "stored and returned) is decided on Matryoshka.calculate_target_power itself (resolver "
+               "contract, C11.SUM); _calc_target_power and _validate_component_ids are opaque there "
+               "(C03 decides them)")
     run.assume("with C03.ENV (target within the bounds it is computed in) the SHIFT rule composes "
                "to regular+op within the system inclusion bounds — documented lemma")
     run.undecided("timing between bounds arrival and distribution results")
